@@ -84,6 +84,7 @@ Proof.
   - split_sub. apply bind_dec. assumption.
   - split_sub. unfold decenv. cbn [map fst snd]. congruence.
   - destruct (ref_block (decenv r) b (o + 6 + 1)). reflexivity.
+  - split_sub. apply bind_dec. assumption.
 Qed.
 
 Lemma agree :
@@ -106,6 +107,10 @@ Proof.
   - intros ps b IHb r o k H. cbn [ref_expr ord_expr dpos_expr] in *. split_sub.
     rewrite names_pos_length in *. rewrite (bind_dec ps (o + 8 + 1) k r) by assumption.
     apply IHb. assumption.
+  - reflexivity.
+  - (* ETable *) intros es IHes r o k H. cbn [ref_expr ord_expr dpos_expr] in *. apply IHes. exact H.
+  - (* EMeth *) intros e IHe m args IHa r o k H. cbn [ref_expr ord_expr dpos_expr] in *. split_sub.
+    rewrite !map_app. rewrite len_e in *. f_equal; [apply IHe|apply IHa]; assumption.
   - reflexivity.
   - intros e IHe es IHes r o k H. cbn [ref_exprs ord_exprs dpos_exprs] in *. split_sub.
     rewrite !map_app. rewrite len_e in *. f_equal; [apply IHe|apply IHes]; assumption.
@@ -147,6 +152,10 @@ Proof.
   - (* SForIn *) intros xs es IHes b IHb r o k H. cbn [ref_stat ord_stat dpos_stat fst] in *. split_sub.
     rewrite !map_app. rewrite names_pos_length, ?len_es in *. f_equal; [apply IHes; assumption|].
     rewrite (bind_dec xs (o + 4) k r) by assumption. apply IHb. assumption.
+  - (* SLabel *) reflexivity.
+  - (* SGoto *) reflexivity.
+  - (* SLocalAttr *) intros x cl es IHes r o k H. cbn [ref_stat ord_stat dpos_stat fst] in *. split_sub.
+    rewrite names_pos_length in *. apply IHes. assumption.
   - reflexivity.
   - (* ElElse *) intros b IHb r o k H. cbn [ref_elifs ord_elifs dpos_elifs] in *. apply IHb. exact H.
   - (* ElIf *) intros c IHc b IHb t IHt r o k H. cbn [ref_elifs ord_elifs dpos_elifs] in *. split_sub.
